@@ -88,3 +88,37 @@ def split_lossless_rule(P, rep, rid, tier, consequence):
                       % (len(sub.violations), v0['msg'][:200], consequence), path=[f.short])
     else:
         rep.ok(rid, 'split_lines', {'c16_obligations': sum(r_['instances'] for r_ in sub.rules.values())})
+
+
+def length_guard_rule(P, rep, rid, paths=None, R=None):
+    """No comparison of the length of input text with a constant on the header path (the header grammar bounds
+    no length; a cap makes long but valid headers be treated differently)."""
+    from sa.roles import ReaderRoles
+    from sa.harness import ReaderHarness, Script
+    if R is None:
+        R = ReaderRoles(P)
+    if paths is None:
+        H = ReaderHarness(P, R, havoc=True, unknown_iters=(1,))
+        H.record_compares = True
+        paths, exceeded = H.paths([Script('diffx', options='unknown')])
+        if exceeded:
+            raise AnalysisError('path budget exceeded on the header function')
+    lenguards = {}
+    fns = [f for f in (R.header_fn, R.readahead_fn) if f is not None]
+    for p in paths:
+        for ev in p.events:
+            if ev.kind != 'compare' or not any(f in ev.stack for f in fns) or ev.data['op'] in ('Is', 'IsNot', 'In', 'NotIn'):
+                continue
+            for a_, b_ in ((ev.data['l'], ev.data['r']), (ev.data['r'], ev.data['l'])):
+                if isinstance(a_, Unk) and a_.src and a_.src[0] == 'call' and a_.src[1] == 'len' and is_concrete(b_) \
+                        and isinstance(concrete(b_), int) and concrete(b_) > 8:
+                    x_ = a_.src[2][0]
+                    if isinstance(x_, Unk) and 'INPUT' in x_.taint:
+                        lenguards.setdefault(norm(ev.node)[:70], ev)
+    if lenguards:
+        for txt, ev in sorted(lenguards.items()):
+            rep.violation(rid, 'length-guard:%s' % txt, ev.loc, 'the header path tests the length of input text against a constant [%s]: '
+                          'header lines that match the grammar but are longer (or shorter) are treated differently' % txt,
+                          path=[R.header_fn.short])
+    else:
+        rep.ok(rid, R.header_fn.short, {'paths': len(paths)})
